@@ -23,19 +23,20 @@ HERE = os.path.dirname(os.path.abspath(__file__))
 sys.path.insert(0, HERE)
 import common as C  # noqa: E402
 
-GEN = ["GenLru", "GenCacheOpt", "GenAccept", "GenStages", "GenPath"]
+GEN = ["GenLru", "GenCacheOpt", "GenAccept", "GenStages", "GenPath", "GenCodec"]
 PROOFS = {
     "GenLru": "L5_Stores/GenLruProofs.v",
     "GenCacheOpt": "L5_Stores/GenCacheOptProofs.v",
     "GenAccept": "L2_Disc/GenAcceptProofs.v",
     "GenStages": "L4_Eval/GenStagesProofs.v",
     "GenPath": "L5_Stores/GenPathProofs.v",
+    "GenCodec": "L5_Stores/GenCodecProofs.v",
 }
-PROPERTY = "Properties/Gen.v"
-OURS = {os.path.splitext(os.path.basename(p))[0] for p in list(PROOFS.values()) + [PROPERTY]} | set(GEN)
+PROPERTIES = ["Properties/C12g.v", "Properties/C14g.v", "Properties/C15g.v", "Properties/C08g.v", "Properties/C17g.v"]
+OURS = {os.path.splitext(os.path.basename(p))[0] for p in list(PROOFS.values()) + PROPERTIES} | set(GEN)
 SRC_REPO = os.environ.get("DDS_REPO", "/repo")
 
-LRU, API, CTX, STORE = "dds/_lru_store.py", "dds/_api.py", "dds/_eval_ctx.py", "dds/store.py"
+LRU, API, CTX, STORE, CODEC = "dds/_lru_store.py", "dds/_api.py", "dds/_eval_ctx.py", "dds/store.py", "dds/codec.py"
 
 
 def sub1(old, new, regex=False):
@@ -86,6 +87,21 @@ SCENARIOS = [
     ("get: a construct outside the subset (try/except)",
      [(LRU, sub1("            self._cache.move_to_end(key)\n            return self._cache[key]",
                  "            try:\n                self._cache.move_to_end(key)\n            except KeyError:\n                pass\n            return self._cache[key]"))], "caught"),
+    ("add_file_codec: a file codec overrides the types that are already bound",
+     [(CODEC, sub1("            if t not in self._handled_types:\n                self._handled_types[t] = codec", "            self._handled_types[t] = codec"))], "caught"),
+    ("add_file_codec: a file codec rebinds a reference that is already bound",
+     [(CODEC, sub1("        if codec.ref() in self._protocols:\n            _logger.warning(f\"{codec.ref()} already in protocols, skipping {codec}\")\n        else:\n            self._protocols[codec.ref()] = codec",
+                   "        self._protocols[codec.ref()] = codec"))], "caught"),
+    ("add_codec: a codec does not override a reference that is bound",
+     [(CODEC, sub1("            self._handled_types[t] = codec\n        self._protocols[codec.ref()] = codec", "            self._handled_types[t] = codec\n        self._protocols.setdefault(codec.ref(), codec)"))], "caught"),
+    ("get_codec: the type is looked at before the reference",
+     [(CODEC, sub1("        if ref:\n", "        if ref and obj_type is None:\n"))], "caught"),
+    ("get_codec: an unregistered reference falls back to the type",
+     [(CODEC, sub1("        if ref:\n            if ref not in self._protocols:", "        if ref and ref in self._protocols:\n            if ref not in self._protocols:"))], "caught"),
+    ("get_codec: no fallback to the codec of object",
+     [(CODEC, sub1("cp = self._handled_types.get(pref) or self._handled_types.get(\n                SupportedTypeUtils.from_type(object)\n            )", "cp = self._handled_types.get(pref)"))], "caught"),
+    ("harmless (codec): comments, a log line, a renamed local",
+     [(CODEC, lambda t: re.sub(r"\bcp\b", "found", sub1("        # First the reference\n", "        # First the reference\n        _logger.debug(f\"get_codec {obj_type} {ref}\")\n")(t)))], "pass"),
     # ---- harmless edits
     ("harmless: locals renamed",
      [(LRU, lambda t: re.sub(r"\bres\b", "fetched", re.sub(r"\bcache_obj\b", "hit", t))),
@@ -185,15 +201,18 @@ def run_scenario(name, edits, root):
         else:
             proved.append(g)
     if len(proved) == len(GEN):
-        dst = os.path.join(theories, PROPERTY)
-        shutil.copy(os.path.join(C.THEORIES, PROPERTY), dst)
-        rc, o = coqc(theories, dst)
-        n_pa = len(re.findall(r"^\s*Print Assumptions", open(dst).read(), re.M))
-        closed = len(re.findall(r"Closed under the global context", o))
-        if rc != 0 or closed != n_pa:
-            res["proofs"].append(PROPERTY + f" (rc={rc}, closed {closed}/{n_pa})")
-            res["log"] += f"\n--- {PROPERTY}\n" + o[-1500:]
-        res["closed"] = (closed, n_pa)
+        tot_closed = tot_pa = 0
+        for prop in PROPERTIES:
+            dst = os.path.join(theories, prop)
+            shutil.copy(os.path.join(C.THEORIES, prop), dst)
+            rc, o = coqc(theories, dst)
+            n_pa = len(re.findall(r"^\s*Print Assumptions", open(dst).read(), re.M))
+            closed = len(re.findall(r"Closed under the global context", o))
+            if rc != 0 or closed != n_pa:
+                res["proofs"].append(prop + f" (rc={rc}, closed {closed}/{n_pa})")
+                res["log"] += f"\n--- {prop}\n" + o[-1500:]
+            tot_closed, tot_pa = tot_closed + closed, tot_pa + n_pa
+        res["closed"] = (tot_closed, tot_pa)
     return res
 
 
@@ -209,7 +228,7 @@ def verdict(res):
 
 
 def main():
-    need = [os.path.join(C.THEORIES, "Base", "PyRt.vo"), os.path.join(C.THEORIES, "L5_Stores", "LruProofs.vo"),
+    need = [os.path.join(C.THEORIES, "Base", "PyRt.vo"), os.path.join(C.THEORIES, "L5_Stores", "CodecProofs.vo"), os.path.join(C.THEORIES, "L5_Stores", "LruProofs.vo"),
             os.path.join(C.THEORIES, "L5_Stores", "PathMapProofs.vo"), os.path.join(C.THEORIES, "L4_Eval", "Stages.vo"),
             os.path.join(C.THEORIES, "L2_Disc", "Accept.vo")]
     missing = [p for p in need if not os.path.exists(p)]
